@@ -77,4 +77,36 @@ def make_inline_hook(prog: Program, cls: Optional[ClassInfo], module, max_depth:
             return live[0].value
         return Opaque(f"helper {target.name} has {len(live)} returning paths")
 
+    def assume_hook(env: Env, call: ast.Call, polarity: bool) -> bool:
+        """a branch on  self.pred(a, b)  where pred's body is 'return <expr>': assume <expr> (with the arguments bound)"""
+        from .absint import assume
+        fn = call.func
+        target = None
+        if isinstance(fn, ast.Attribute) and isinstance(fn.value, ast.Name) and fn.value.id == "self" and cls is not None:
+            target, off = prog.lookup_method(cls, fn.attr), 1
+        elif isinstance(fn, ast.Name) and fn.id not in env.vars and module is not None:
+            full = prog.resolve_name(module, fn.id)
+            target, off = (prog.functions.get(full) if full else None), 0
+            if target is not None and (target.cls is not None or target.parent is not None):
+                target = None
+        if target is None or call_name(call) in skip or not isinstance(target.node, (ast.FunctionDef, ast.AsyncFunctionDef)):
+            return False
+        body = [b for b in target.node.body if not (isinstance(b, ast.Expr) and isinstance(b.value, ast.Constant))]
+        if len(body) != 1 or not isinstance(body[0], ast.Return) or body[0].value is None:
+            return False
+        a = target.node.args
+        names = [x.arg for x in a.posonlyargs + a.args][off:]
+        if len(call.args) > len(names):
+            return False
+        sub = env.copy()
+        sub.facts = env.facts
+        for p_, av in zip(names, call.args):
+            sub.vars[p_] = evaluate(env, av)
+        for k in call.keywords:
+            if k.arg:
+                sub.vars[k.arg] = evaluate(env, k.value)
+        assume(sub, body[0].value, polarity)
+        return True
+
+    hook.assume = assume_hook
     return hook
